@@ -156,3 +156,14 @@ def detach_iterator(it):
         it.proxy = None
     except AttributeError:
         pass
+
+
+def set_marker(text):
+    """what the check is busy with right now (read by the supervising process if this one stops responding)"""
+    path = os.environ.get("VERIF_MARKER_FILE")
+    if path:
+        try:
+            with open(path, "w") as f:
+                f.write(text[:300])
+        except OSError:
+            pass
